@@ -145,6 +145,10 @@ class IrregularlyBin(Factory, Container):
         """Get number of bins, consistent with SparselyBin and Categorize"""
         return len(self.bins)
 
+    def index(self, x):
+        """Find the index of the bin that ``x`` belongs to (used by ``bin_entries(xvalues=...)``)."""
+        return self._lower_index(x)
+
     def _lower_index(self, x):
         """Find lower index of bin corresponding to ``x``."""
         edges = self.edges
